@@ -52,8 +52,7 @@ class FTPServiceABC(Service, ABC):
         # handle STOR request
         if payload.ftp_command == FTPCommand.STOR:
             # check that the file is created in the computed hosting the FTP server
-            if self._store_data(payload=payload):
-                payload.status_code = FTPStatusCode.OK
+            payload.status_code = FTPStatusCode.OK if self._store_data(payload=payload) else FTPStatusCode.ERROR
 
         if payload.ftp_command == FTPCommand.RETR:
             if self._retrieve_data(payload=payload, session_id=session_id):
